@@ -680,7 +680,7 @@ func (a *Analysis) fixpoint() {
 					// the locks held where it is activated (it may be created earlier, e.g. as
 					// the argument of a locking helper whose body was expanded in place)
 					first := true
-					for _, at := range acts {
+					for _, at := range a.activationPoints(mc, acts) {
 						if first {
 							newMust[fn] = a.MustAt(at)
 							newMay[fn] = a.MayAt(at)
@@ -721,6 +721,75 @@ func (a *Analysis) fixpoint() {
 		a.intra(fn, a.mustEntry[fn], a.mustIn, true)
 		a.intra(fn, a.mayEntry[fn], a.mayIn, false)
 	}
+}
+
+// activationPoints refines the places where a synchronous closure runs: where
+// it is handed, as an argument, to a repository function that calls that
+// parameter directly (`db.withLock(func() { … })`), it runs at those inner
+// calls — with whatever the helper has locked by then — not at the hand-over.
+func (a *Analysis) activationPoints(mc *ssa.MakeClosure, acts []ssa.Instruction) []ssa.Instruction {
+	var out []ssa.Instruction
+	for _, at := range acts {
+		ci, ok := at.(ssa.CallInstruction)
+		if !ok {
+			out = append(out, at)
+			continue
+		}
+		callee := ci.Common().StaticCallee()
+		idx := -1
+		for i, arg := range ci.Common().Args {
+			v := arg
+			for k := 0; k < 2; k++ {
+				if ct, isCT := v.(*ssa.ChangeType); isCT {
+					v = ct.X
+				}
+			}
+			if v == ssa.Value(mc) {
+				idx = i
+			}
+		}
+		var inner []ssa.Instruction
+		if callee != nil && idx >= 0 && idx < len(callee.Params) && len(callee.Blocks) > 0 {
+			isRepoFn := false
+			for _, f := range a.Funcs {
+				if f == callee {
+					isRepoFn = true
+				}
+			}
+			if isRepoFn {
+				param := callee.Params[idx]
+				escapes := false
+				if refs := param.Referrers(); refs != nil {
+					for _, r := range *refs {
+						switch x := r.(type) {
+						case ssa.CallInstruction:
+							if x.Common().Value == ssa.Value(param) {
+								if _, isGo := x.(*ssa.Go); isGo {
+									escapes = true
+								} else {
+									inner = append(inner, x)
+								}
+							} else {
+								escapes = true // handed on
+							}
+						case *ssa.DebugRef:
+						default:
+							escapes = true
+						}
+					}
+				}
+				if escapes {
+					inner = nil
+				}
+			}
+		}
+		if len(inner) > 0 {
+			out = append(out, inner...)
+		} else {
+			out = append(out, at)
+		}
+	}
+	return out
 }
 
 // Witness returns a call path from an entry point to fn on which none of the
